@@ -1,7 +1,7 @@
 (** C08: a codec that CodecForType hands out is structurally sound - and
     therefore obeys the decoding-totality and round-trip theorems. *)
 From Plenc Require Import Base Varint Wire JsonAny Codec SizeProofs DecBase DecProofs Registry RegistryProofs
-  RoundTripBase RoundTrip.
+  RoundTripBase RoundTrip Descriptor DescProofs.
 Open Scope N_scope.
 
 (** structural soundness of a codec tree *)
@@ -36,8 +36,8 @@ Proof.
   destruct (find _ (regs_of C)) as [e|] eqn:E; [|discriminate]. injection H as <-.
   apply find_some in E. destruct E as [Hin _].
   assert (Hall : Forall (fun e : ty * bytes * codec => sane (snd e) /\ nobottom (snd e) = true) (regs_of C)).
-  { destruct C as [pt pa wn wj wb]. unfold regs_of, default_regs, null_regs, json_regs, bq_regs. cbn [proto_time with_null with_json with_bq].
-    destruct pt, wn, wj, wb; cbn [map app bitsof N.eqb];
+  { destruct C as [pt pa wn wj wb wc]. unfold regs_of, default_regs, null_regs, json_regs, bq_regs, custom_regs. cbn [proto_time with_null with_json with_bq with_custom].
+    destruct pt, wn, wj, wb, wc; cbn [map app bitsof N.eqb];
       repeat (constructor; [cbn; unfold bits_ok; split; [auto 6|reflexivity]|]); constructor. }
   rewrite Forall_forall in Hall. apply (Hall e Hin).
 Qed.
@@ -246,4 +246,53 @@ Qed.
 
 (** and the codec registered for (string, "intern") is the string codec *)
 Theorem intern_string_registration : forall C, lookup (regs_of C) TString s_intern = lookup (regs_of C) TString [].
-Proof. intros [pt pa wn wj wb]. reflexivity. Qed.
+Proof. intros [pt pa wn wj wb wc]. destruct wc; reflexivity. Qed.
+
+(** ** C14: the Descriptor of a struct type mirrors its definition *)
+
+(** what the definition says about each encoded field: index from the plenc
+    tag, name from the json tag (up to the first comma) when it has one,
+    otherwise the Go field name; unexported and "-" fields do not appear *)
+Fixpoint field_specs (l : list fdef) : list (Z * bytes) :=
+  match l with
+  | [] => []
+  | fd :: r =>
+    if negb (fd_exported fd) then field_specs r
+    else if bytes_eqb (fd_plenc fd) [45] then field_specs r
+    else
+      match atoi (fst (cut 44 (fd_plenc fd))) with
+      | Some index =>
+        (index, match fst (cut 44 (fd_json fd)) with [] => fd_name fd | j => j end) :: field_specs r
+      | None => field_specs r
+      end
+  end.
+
+Lemma build_fields_specs cf : forall l i fs, build_fields cf i l = Ok fs ->
+  map (fun f => (f_index f, f_name f)) fs = field_specs l.
+Proof.
+  induction l as [|fd r IH]; intros i fs H; cbn [build_fields field_specs] in *.
+  - injection H as <-. reflexivity.
+  - destruct (negb (fd_exported fd)); [apply (IH _ _ H)|].
+    destruct (bytes_eqb (fd_plenc fd) []); [discriminate|].
+    destruct (bytes_eqb (fd_plenc fd) [45]); [apply (IH _ _ H)|].
+    destruct (cut 44 (fd_plenc fd)) as [num post]. cbn [fst].
+    destruct (atoi num) as [index|]; [|discriminate].
+    destruct (index <? 0)%Z; [discriminate|].
+    match type of H with (do fc <- ?X; _) = _ => destruct X as [fc| | | |] end; cbn [bind] in H; try discriminate.
+    destruct (build_fields cf (S i) r) as [rest| | | |] eqn:Er; cbn [bind] in H; try discriminate.
+    injection H as <-. cbn [map f_index f_name]. f_equal. apply (IH _ _ Er).
+Qed.
+
+Theorem struct_descriptor_mirrors_definition : forall C E f id sd c d,
+  lookup (regs_of C) (TStruct id) [] = None ->
+  nth_error E (N.to_nat id) = Some sd ->
+  codec_for C E (S f) (TStruct id) [] = Ok c -> descriptor_of c = Ok d ->
+  d_type d = FTStruct /\ d_typename d = sd_name sd /\
+  map (fun e => (d_index e, d_name e)) (d_elems d) = field_specs (sd_fields sd).
+Proof.
+  intros C E f id sd c d Hl Hn H Hd. cbn [codec_for strip] in H. rewrite Hl, Hn in H.
+  destruct (build_fields (codec_for C E f) 0 (sd_fields sd)) as [fs| | | |] eqn:Eb; cbn [bind] in H; try discriminate.
+  destruct (max_sane_index <=? _)%Z; [discriminate|]. destruct (has_dup fs); [discriminate|]. injection H as <-.
+  destruct (DescProofs.struct_descriptor_fields _ _ _ _ Hd) as (Ht & Htn & _ & Hm & _).
+  split; [exact Ht|]. split; [exact Htn|]. rewrite Hm. apply (build_fields_specs _ _ _ _ Eb).
+Qed.
